@@ -81,7 +81,13 @@ class ProxyFamily(ScenarioFamily):
         if r.random() < 0.3:
             px["style"] = "legacy"
         ops = []
-        for i in range(r.randint(1, 3)):
+        companions = []
+        rc = gen.mk_rng(seed, "c11conc")
+        n_first = r.randint(1, 3)
+        n_comp = rc.choice([0, 0, 0, 2, 2, 3]) if self.ex == "asyncio" else 0
+        for i in range(n_first + n_comp):
+            if i >= n_first:
+                r = rc
             scheme = r.choice(["http", "https"])
             host = r.choice(hosts)
             port = r.choice([DEFAULT[scheme], DEFAULT[scheme], 8080 if scheme == "http" else 8443])
@@ -105,13 +111,27 @@ class ProxyFamily(ScenarioFamily):
             if r.random() < 0.15:
                 # the 'target' request extension overrides the URL's target (origin side)
                 op["target"] = f"/t/{tok}/via-target-extension?y={i}".encode()
-            ops.append(op)
+            if i >= n_first:
+                companions.append(op)
+            else:
+                ops.append(op)
+        r = gen.mk_rng(seed, "c11tail")
         scn = {"seed": seed, "exec": self.ex,
                "pool": {"max_connections": r.choice([1, 2, 10]), "proxy": px},
                "net": {"latency": r.choice(["zero", "fixed", "small"]),
                        "seg": r.choice(["whole", "whole", "random", "segment"]),
                        "endpoints": eps},
                "callers": [{"ops": ops}], "epilogue": ["close_pool"], "c11": c11}
+        if companions:
+            # concurrent callers that start together once the first caller is under way or
+            # done: several requests handed one idle connection, re-queues, retries
+            start = rc.choice([0.02, 0.1, 0.5, 2.0])
+            for k, op in enumerate(companions):
+                if k < 2 or rc.random() < 0.5:
+                    # same origin as the first caller's first request
+                    op["url"] = ops[0]["url"].replace("/t/p0?", "/t/p%d?" % (n_first + k))
+            for op in companions:
+                scn["callers"].append({"start": start, "ops": [op]})
         if self.ex == "threads":
             scn["policy"] = {"mode": "ops", "op_p": 0.5}
         return scn
